@@ -23,6 +23,12 @@ class HdsModel(Model):
         self.truthy["parent"] = self.has_parent
         self.cs = self.int_field("self.cluster_size")
         self.mult = self.int_field("self._bat_multiplier")
+        self.step = self.int_field("self._bat_step")
+        self.spc = self.int_field("self.header.m_Sectors", 0, U32, self.hyps)
+        self.is_v1 = z3.Bool("is_v1")
+        self.obj_field("self.header")
+        # class invariant established by HDS.__init__: v1 entries are in sectors, v2 entries in clusters
+        self.hyps += [self.cs == self.spc * 512, self.mult == z3.If(self.is_v1, 1, self.spc), self.step == z3.If(self.is_v1, self.spc, 1)]
         self.size = self.int_field("self.size")
         self.obj_field("self.bat")
         self.nbat = z3.Int("len(self.bat)")
